@@ -134,7 +134,10 @@ Close(S) ==
   IN dirs \cup uniq
 
 One == {Close({x}) : x \in Universe}
-Two == {Close({x, y}) : x, y \in Universe}
+\* two-node trees: any node together with a link, a directory or one of a few
+\* telling files
+Key == {n \in Universe : n.k \in {"l", "d"}} \cup {Nd(<<".a">>, "f"), Nd(<<"*">>, "f"), Nd(<<"sub", "a">>, "f")}
+Two == {Close({x, y}) : x \in Universe, y \in Key}
 
 RECURSIVE SeqOfSet(_)
 SeqOfSet(S) == IF S = {} THEN <<>> ELSE LET x == CHOOSE x \in S : TRUE IN <<x>> \o SeqOfSet(S \ {x})
@@ -217,6 +220,8 @@ Emit == PrintT(ToJson(IF field = <<>> THEN Header ELSE Line))
 (* Sanity theorems about the oracle (DESIGN.md C05 "TLC (oracle sanity)"). *)
 (***************************************************************************)
 TreesOK == \A i \in 1..Len(trees) : WellFormedTree(trees[i].T) /\ IsDir(trees[i].T, trees[i].cwd)
+                                      /\ \A p \in DOMAIN trees[i].T : p[1] = Scope
+TreesOK0 == field # <<>> \/ TreesOK      \* once (the trees never change)
 
 \* split a result string at slashes
 RECURSIVE SplitStr(_)
